@@ -514,6 +514,16 @@ pub fn run(ctx: &mut Ctx) {
         }
         // the same history under the model, followed by reuse: a second split message
         let mut ops: Vec<Op> = frags.into_iter().map(|f| Op::rec(ty, f)).collect();
+        if !hb && r.chance(1, 3) {
+            // completion that leaves the start of a further message as remainder, then a whole record
+            if let Some(Op::Rec { data, len, .. }) = ops.last_mut() {
+                let more = gen::hs(r, gen::TINY).to_bytes();
+                let cutm = r.usize(1, more.len().max(2) - 1).min(more.len());
+                data.extend_from_slice(&more[..cutm]);
+                *len = data.len() as u16;
+            }
+            ops.push(Op::rec(0x16, refenc::msgs_payload(&gen::msg_list(r, gen::TINY, 0x16))));
+        }
         let hb2 = r.bool();
         let (p2, f2) = if hb2 { hb_payload(r) } else { hs_payload(r, gen::TINY) };
         let ty2 = if hb2 { 0x18 } else { 0x16 };
